@@ -545,7 +545,15 @@ def main(spec, argv=None):
             rr = engine.replay_case(hy, rp["case"], 1)
             failed, sig = rr[0] is not None, (rr[0].msg if rr[0] is not None else "")
         else:
-            failed, sig = r[0] == "crash", r[1]
+            # a reproducer is decided by a run that ends normally ('ok') or crashes; a run lost to load noise is repeated,
+            # and an entry that stays undecided keeps its exclusion (a known finding must never be re-reported by accident)
+            tries = 0
+            while r[0].startswith("noise:") and tries < 3:
+                tries += 1
+                r = replay_file(spec, rp_path)
+            failed, sig = r[0] != "ok", r[1]
+            if r[0].startswith("noise:"):
+                print("note: reproducer of %s undecided (%s); treated as still failing" % (kf["id"], r[0]))
         if kf["status"] == "fixed":
             if failed:
                 print("regression of fixed finding %s: %s" % (kf["id"], sig))
